@@ -864,6 +864,21 @@ func c01Choice(c *Ctx) {
 		// f3: stop link sources
 		c01StopSources(c, f, lnk, key)
 	}
+	// what is recorded as latest-synced — the stop point of the next sync — is the head this sync was given
+	{
+		var sendFns []*ssa.Function
+		for _, f := range c.Funcs(dagsyncPkg) {
+			instrsDeep(f.SSA, func(g *ssa.Function, in ssa.Instruction) {
+				if snd, ok := in.(*ssa.Send); ok {
+					if x := c.E(snd.Chan); x.Op == "field" && x.Name == "inEvents" {
+						sendFns = append(sendFns, g)
+					}
+				}
+			})
+		}
+		syncedHeadRecorded(c, "C01.f-synced-head-recorded", sendFns)
+		c.Floor("C01.f-synced-head-recorded", 2)
+	}
 	c.Floor("C01.f-head-equals-stop", 4)
 	c.Floor("C01.f-limit-choice", 4)
 	c.Floor("C01.f-stop-choice", 3)
